@@ -219,6 +219,7 @@ class SimTransport(asyncio.Transport):
         self._write_paused = False
         self._server = None
         self._lost_called = False
+        self._close_deferred = False
         self.tx_pipe: Pipe = conn.c2s if side == 'a' else conn.s2c
         self.rx_pipe: Pipe = conn.s2c if side == 'a' else conn.c2s
         self.tx_pipe.tx = self
@@ -324,6 +325,14 @@ class SimTransport(asyncio.Transport):
         if not self._eof_sent and not self.conn.reset_done:
             self._eof_sent = True
             self.tx_pipe.push(('eof', None))
+        peer = self.peer
+        if self._inflight > HIGH_WATER and not self.conn.reset_done and peer is not None and not peer._closed:
+            # like a selector transport closed while its own buffer still holds data (the peer does not read and the
+            # socket buffers are full): no more reads, and connection_lost() only once the buffer has gone out - never, if
+            # the peer never reads again and nothing resets the connection
+            self._close_deferred = True
+            self.conn.net.fired['close_waits_for_unsent_data'] += 1
+            return
         self._closed = True
         self.loop.call_soon(self._call_connection_lost, None, context=self.context)
 
@@ -387,6 +396,11 @@ class SimTransport(asyncio.Transport):
                 # accounted as no longer in flight for the sender
                 pipe.tx._ack(len(data))
             return
+        if self._close_deferred:
+            # closed for reading
+            if kind == 'data':
+                pipe.tx._ack(len(data))
+            return
         if self._paused_reading or self._rx_pending:
             self._rx_pending.append((item, pipe))
             return
@@ -423,6 +437,11 @@ class SimTransport(asyncio.Transport):
 
     def _ack(self, n: int):
         self._inflight -= n
+        if self._close_deferred and not self._closed and self._inflight <= HIGH_WATER:
+            self._close_deferred = False
+            self._closed = True
+            self.loop.call_soon(self._call_connection_lost, None, context=self.context)
+            return
         if self._write_paused and self._inflight <= LOW_WATER and not self._closed:
             self._write_paused = False
             self.loop.call_soon(self._resume_writing, context=self.context)
